@@ -45,7 +45,7 @@ def run_real_info(case, offset=0.0):
     from nessai.evidence import _NSIntegralState
     ll = c02.float_logL(case) + offset
     n = case["n"]
-    st = _NSIntegralState(n, track_gradients=False, expectation=case["mode"])
+    st = _NSIntegralState(n, track_gradients=False, expectation=c02.spelling(case["mode"], len(ll) + int(n)))
     ns, _ = sched_and_arg(case)
     N = len(ll)
     with np.errstate(all="ignore"):
